@@ -251,14 +251,28 @@ pub fn gen_history<K: Kind>(spec: &str, rng: &mut Rng) -> History {
     let mut ops = 0;
     let mut fault_budget = 1;
     let steps = rng.range(2, 40);
+    // client crashes: a crashed client's last invocation stays in flight for ever (it may or may
+    // not take effect); the surviving clients keep observing the object
+    let crashy = threads >= 2 && rng.chance(1, 3);
+    let crash_after: Vec<Option<usize>> = (0..threads).map(|t| if crashy && t + 1 < threads && rng.chance(2, 3) { Some(rng.range(1, 2) as usize) } else { None }).collect();
+    let mut invoked = vec![0usize; threads];
     for _ in 0..steps {
         let t = rng.usize_below(threads);
+        if let (T::Applied(_), Some(k)) = (&st[t], crash_after[t]) {
+            if invoked[t] >= k {
+                continue; // crashed while waiting for the reply
+            }
+        }
         match st[t].clone() {
             T::Idle => {
                 if ops < max_ops {
                     let c = K::gen_op(rng, &mut fresh);
+                    if crash_after[t].map(|k| invoked[t] >= k).unwrap_or(false) {
+                        continue; // a crashed client issues nothing more
+                    }
                     events.push(Ev { thread: t as u8, invoke: true, code: c });
                     st[t] = T::Invoked(c);
+                    invoked[t] += 1;
                     ops += 1;
                 } else if fault == "reply-without-request" && fault_budget > 0 && rng.chance(1, 4) {
                     fault_budget -= 1;
